@@ -4,7 +4,7 @@
 From Coq Require Import Extraction ExtrOcamlBasic.
 From V.Lib Require Import Bytes Base64.
 From V.Lib Require Import NetAddr.
-From V.Model Require Import Signed Cookies CookieStore Jar Csrf Ticket Bypass Authz Headers Redirect SignOut Refresh.
+From V.Model Require Import Signed Cookies CookieStore Jar Csrf Ticket Bypass Authz Headers Redirect SignOut Refresh StoreFaults.
 Extraction Blacklist String List Nat Bytes Int Char Array Buffer Hashtbl Printf Sx Conv Adapters Driver.
 Set Extraction Optimize.
 Separate Extraction
@@ -23,4 +23,5 @@ Separate Extraction
   Headers.request_headers Headers.response_headers Headers.hget Headers.canon
   Redirect.is_valid_redirect Redirect.get_redirect Redirect.callback_redirect Redirect.oauth_redirect_uri Redirect.browser_same_host Redirect.get_request_host
   SignOut.sign_out_ticket_store SignOut.sign_out_cookie_store SignOut.apply_op SignOut.kv_get
-  Refresh.run Refresh.init Refresh.step Refresh.seq_refresh Refresh.expire_lock.
+  Refresh.run Refresh.init Refresh.step Refresh.seq_refresh Refresh.expire_lock
+  StoreFaults.stored_request StoreFaults.callback_save StoreFaults.sign_out StoreFaults.ready_probe.
